@@ -4,7 +4,7 @@ import sys
 from common import quiet, quiet_import
 
 
-def build_random(rng, n_blocks=12, n_inputs=3, max_w=8, seq=True, gated=False, shuffle=True, parent=None, in_wires=None, out_wires=None, plain_reset=False):
+def build_random(rng, n_blocks=12, n_inputs=3, max_w=8, seq=True, gated=False, shuffle=True, parent=None, in_wires=None, out_wires=None, plain_reset=False, xor_equal_widths=False):
     """returns (hw, inputs, info).  inputs: undriven wires to poke.  Combinational part is acyclic by construction;
     feedback only through registers (q wires are created first and closed at the end).  With shuffle=True the
     blocks are INSTANTIATED in a random order (so Simulator.topologicalSort has work to do)."""
@@ -38,7 +38,13 @@ def build_random(rng, n_blocks=12, n_inputs=3, max_w=8, seq=True, gated=False, s
     for k in range(n_blocks):
         kind = rng.choice(kinds); n = 'u%d' % k
         a, b = pick(), pick()
-        if kind in ('and2', 'or2', 'xor2'):
+        if kind == 'xor2' and xor_equal_widths:
+            # the structural Xor2 is only right when a, b and r have one width (known finding C08-xor2-wide-result)
+            if b.getWidth() != a.getWidth():
+                b2 = new(a.getWidth()); recipe.append(('buf', lambda n=n, b=b, b2=b2: py4hw.Buf(hw, n + 'y', b, b2))); b = b2
+            r = new(a.getWidth())
+            recipe.append((kind, lambda n=n, a=a, b=b, r=r: py4hw.Xor2(hw, n, a, b, r)))
+        elif kind in ('and2', 'or2', 'xor2'):
             r = new(rng.choice([a.getWidth(), b.getWidth(), rng.randint(1, max_w)]))
             cls = {'and2': py4hw.And2, 'or2': py4hw.Or2, 'xor2': py4hw.Xor2}[kind]
             recipe.append((kind, lambda cls=cls, n=n, a=a, b=b, r=r: cls(hw, n, a, b, r)))
@@ -63,7 +69,12 @@ def build_random(rng, n_blocks=12, n_inputs=3, max_w=8, seq=True, gated=False, s
             hi = rng.randrange(a.getWidth()); lo = rng.randint(0, hi); r = new(hi - lo + 1)
             recipe.append((kind, lambda n=n, a=a, hi=hi, lo=lo, r=r: py4hw.Range(hw, n, a, hi, lo, r)))
         elif kind == 'concat':
-            r = new(min(a.getWidth() + b.getWidth(), 16))
+            if a.getWidth() + b.getWidth() > 16:            # keep widths bounded: concatenate narrow slices instead
+                a2 = new(min(a.getWidth(), 8)); b2 = new(min(b.getWidth(), 8))
+                recipe.append(('range', lambda n=n, a=a, a2=a2: py4hw.Range(hw, n + 'a', a, a2.getWidth() - 1, 0, a2)))
+                recipe.append(('range', lambda n=n, b=b, b2=b2: py4hw.Range(hw, n + 'b', b, b2.getWidth() - 1, 0, b2)))
+                pool.extend([a2, b2]); a, b = a2, b2
+            r = new(a.getWidth() + b.getWidth())
             cls = rng.choice([py4hw.ConcatenateMSBF, py4hw.ConcatenateLSBF])
             recipe.append((kind, lambda cls=cls, n=n, a=a, b=b, r=r: cls(hw, n, [a, b], r)))
         elif kind in ('shl', 'shr'):
